@@ -1,5 +1,6 @@
 //! Tree generators: enumerated families first, then random trees over every node kind.
 use super::tree::*;
+use super::types::*;
 use crate::rng::Rng;
 
 pub fn id(s: &str) -> Ex {
@@ -40,6 +41,38 @@ pub fn long_text(n: usize) -> Vec<u8> {
     (0..n).map(|i| b"abcdefghij klmnopqrstuvwxyz"[i % 27]).collect()
 }
 
+/// `long_text(n)` with the given byte sequences written at the given offsets
+fn long_with(n: usize, marks: &[(usize, &[u8])]) -> Vec<u8> {
+    let mut v = long_text(n);
+    for (at, bytes) in marks {
+        v[*at..*at + bytes.len()].copy_from_slice(bytes);
+    }
+    v
+}
+
+/// Long-bracket eligible values whose bracket LEVEL matters: a closing sequence of a higher
+/// level before the first one of a lower level, several levels in both orders, a leading
+/// newline, a trailing `]`, the six-newlines form. (Values ending in `]=`.. are finding F14 of
+/// C13 and stay out.)
+pub fn level_sensitive_strings() -> Vec<Vec<u8>> {
+    let mut trailing = long_with(70, &[(8, b"]=]"), (30, b"]]")]);
+    trailing.push(b']');
+    let mut leading_newline = long_with(70, &[(12, b"]=]"), (40, b"]]")]);
+    leading_newline[0] = b'\n';
+    vec![
+        long_with(70, &[(10, b"]=]"), (40, b"]]")]),
+        long_with(80, &[(5, b"]==]"), (20, b"]=]"), (40, b"]]")]),
+        long_with(80, &[(5, b"]]"), (20, b"]=]"), (40, b"]==]")]),
+        long_with(80, &[(5, b"]==]"), (40, b"]]")]),
+        long_with(90, &[(3, b"]===]"), (20, b"]=]"), (30, b"]==]"), (60, b"]]")]),
+        trailing,
+        leading_newline,
+        b"]=]\n]]\nc\nd\ne\nf\ng h i j k l m".to_vec(),
+        b"x]==]\n]=]\n]]\nd\ne\nf\ng h i j k".to_vec(),
+        b"local banner = [=[ generated ]=] local first = rows[index[1]] return banner, first".to_vec(),
+    ]
+}
+
 pub fn string_pool() -> Vec<Vec<u8>> {
     let mut long_with_closer = long_text(70);
     long_with_closer[30] = b']';
@@ -69,6 +102,9 @@ pub fn string_pool() -> Vec<Vec<u8>> {
         long_end_bracket,
         b"l1\nl2\nl3\nl4\nl5\nl6\nl7 long enough".to_vec(),
     ]
+    .into_iter()
+    .chain(level_sensitive_strings())
+    .collect()
 }
 
 pub fn number_pool() -> Vec<Num> {
@@ -116,6 +152,117 @@ fn wrap_contexts(e: Ex) -> Vec<Blk> {
         stmts(vec![St::Local(vec!["v".into()], vec![e.clone()])]),
         stmts(vec![St::CallSt(call(id("f"), vec![e.clone(), e]))]),
     ]
+}
+
+/// every type node kind, in every position a type can take
+pub fn type_family(rng: &mut Rng, thorough: bool) -> Vec<(&'static str, Blk)> {
+    let mut out = Vec::new();
+    let t = tname("T");
+    let u = tname("U");
+    let f0 = |ret: TyRet| Ty::Func(vec![], vec![], None, Box::new(ret));
+    let kinds: Vec<Ty> = vec![
+        t.clone(),
+        Ty::Name("Map".into(), vec![TyArg::Ty(t.clone()), TyArg::Ty(u.clone())]),
+        Ty::Name("Pack".into(), vec![TyArg::Pack(TyPack { types: vec![], variadic: None }), TyArg::Var(TyVar::Variadic(t.clone())), TyArg::Var(TyVar::Generic("P".into()))]),
+        Ty::Name("Nested".into(), vec![TyArg::Ty(Ty::Name("Inner".into(), vec![TyArg::Ty(t.clone())]))]),
+        Ty::Field("ns".into(), "T".into(), vec![]),
+        Ty::Field("ns".into(), "G".into(), vec![TyArg::Ty(u.clone())]),
+        Ty::Nil,
+        Ty::True,
+        Ty::False,
+        Ty::Str(b"s".to_vec()),
+        Ty::Str(long_text(64)),
+        Ty::Array(Box::new(t.clone())),
+        Ty::Table(vec![]),
+        Ty::Table(vec![TyEntry::Prop("a".into(), t.clone()), TyEntry::Literal(b"k k".to_vec(), u.clone()), TyEntry::Indexer(tname("string"), Ty::Optional(Box::new(t.clone())))]),
+        Ty::Table(vec![TyEntry::Indexer(Ty::Union(vec![t.clone(), u.clone()]), t.clone())]),
+        Ty::Table(vec![TyEntry::Literal(long_text(64), t.clone())]),
+        Ty::TypeOf(Box::new(Ex::Field(bx(id("a")), "b".into()))),
+        Ty::Paren(Box::new(t.clone())),
+        f0(TyRet::Pack(TyPack { types: vec![], variadic: None })),
+        Ty::Func(vec![Generic::Var("G".into()), Generic::Pack("P".into())], vec![(Some("n".into()), tname("G")), (None, u.clone())], Some(Box::new(TyVar::Generic("P".into()))), Box::new(TyRet::Ty(t.clone()))),
+        Ty::Func(vec![], vec![(None, t.clone())], Some(Box::new(TyVar::Variadic(u.clone()))), Box::new(TyRet::Pack(TyPack { types: vec![t.clone(), u.clone()], variadic: Some(TyVar::Variadic(t.clone())) }))),
+        f0(TyRet::Var(TyVar::Variadic(t.clone()))),
+        f0(TyRet::Var(TyVar::Generic("P".into()))),
+        f0(TyRet::Ty(f0(TyRet::Ty(t.clone())))),
+        f0(TyRet::Ty(Ty::Union(vec![t.clone(), u.clone()]))),
+        Ty::Optional(Box::new(t.clone())),
+        Ty::Optional(Box::new(Ty::Optional(Box::new(t.clone())))),
+        Ty::Optional(Box::new(Ty::Union(vec![t.clone(), u.clone()]))),
+        Ty::Optional(Box::new(f0(TyRet::Ty(t.clone())))),
+        Ty::Union(vec![t.clone(), u.clone()]),
+        Ty::Union(vec![t.clone(), Ty::Nil, Ty::Str(b"s".to_vec())]),
+        Ty::Union(vec![Ty::Inter(vec![t.clone(), u.clone()]), t.clone()]),
+        Ty::Union(vec![t.clone(), Ty::Inter(vec![t.clone(), u.clone()])]),
+        Ty::Union(vec![f0(TyRet::Ty(t.clone())), u.clone()]),
+        Ty::Union(vec![t.clone(), f0(TyRet::Ty(u.clone()))]),
+        Ty::Union(vec![Ty::Optional(Box::new(t.clone())), u.clone()]),
+        Ty::Union(vec![Ty::Union(vec![t.clone(), u.clone()]), t.clone()]),
+        Ty::Inter(vec![t.clone(), u.clone()]),
+        Ty::Inter(vec![Ty::Union(vec![t.clone(), u.clone()]), t.clone()]),
+        Ty::Inter(vec![t.clone(), Ty::Optional(Box::new(u.clone()))]),
+        Ty::Inter(vec![f0(TyRet::Ty(t.clone())), f0(TyRet::Ty(u.clone()))]),
+    ];
+    let a = id("a");
+    let position = |ty: &Ty| -> Vec<Blk> {
+        vec![
+            stmts(vec![St::TypeDecl(false, "X".into(), vec![], ty.clone())]),
+            stmts(vec![St::TypeDecl(true, "X".into(), vec![Generic::Var("A".into())], ty.clone())]),
+            stmts(vec![St::TypeDecl(false, "X".into(), vec![Generic::Var("A".into()), Generic::VarDefault("B".into(), ty.clone())], ty.clone())]),
+            stmts(vec![St::TypeDecl(false, "X".into(), vec![Generic::Var("A".into()), Generic::Pack("P".into())], ty.clone()), St::TypeDecl(false, "Y".into(), vec![], ty.clone())]),
+            stmts(vec![St::LocalT(vec![("v".into(), Some(ty.clone())), ("w".into(), None), ("x".into(), Some(ty.clone()))], vec![a.clone()])]),
+            stmts(vec![St::LocalT(vec![("v".into(), Some(ty.clone()))], vec![]), St::CallSt(call(a.clone(), vec![]))]),
+            ret(vec![Ex::Cast(bx(a.clone()), ty.clone())]),
+            ret(vec![bin(4, Ex::Cast(bx(a.clone()), ty.clone()), a.clone()), bin(6, a.clone(), Ex::Cast(bx(a.clone()), ty.clone()))]),
+            ret(vec![bin(0, Ex::Cast(bx(a.clone()), ty.clone()), Ex::Cast(bx(a.clone()), ty.clone())), Ex::Table(vec![Entry::Val(Ex::Cast(bx(a.clone()), ty.clone()))])]),
+            stmts(vec![St::Local(vec!["v".into()], vec![Ex::Cast(bx(a.clone()), ty.clone())]), St::CallSt(call(paren(a.clone()), vec![]))]),
+            stmts(vec![St::If(vec![(Ex::Cast(bx(a.clone()), ty.clone()), Blk::default())], None)]),
+            stmts(vec![St::LocalFn(
+                "f".into(),
+                Func {
+                    params: vec!["p".into(), "q".into()],
+                    variadic: true,
+                    body: Blk::default(),
+                    sig: Some(Box::new(Sig {
+                        generics: vec![Generic::Var("G".into()), Generic::Pack("P".into())],
+                        param_types: vec![Some(ty.clone()), None],
+                        variadic_type: Some(TyVar::Variadic(ty.clone())),
+                        ret: Some(TyRet::Ty(ty.clone())),
+                    })),
+                },
+            )]),
+            ret(vec![Ex::Func(Box::new(Func {
+                params: vec!["p".into()],
+                variadic: false,
+                body: ret(vec![id("p")]),
+                sig: Some(Box::new(Sig { generics: vec![], param_types: vec![Some(ty.clone())], variadic_type: None, ret: Some(TyRet::Pack(TyPack { types: vec![ty.clone(), ty.clone()], variadic: None })) })),
+            }))]),
+            stmts(vec![St::Function(
+                vec!["m".into(), "n".into()],
+                Some("o".into()),
+                Func {
+                    params: vec![],
+                    variadic: true,
+                    body: Blk::default(),
+                    sig: Some(Box::new(Sig { generics: vec![Generic::Pack("P".into())], param_types: vec![], variadic_type: Some(TyVar::Generic("P".into())), ret: Some(TyRet::Var(TyVar::Generic("P".into()))) })),
+                },
+            )]),
+        ]
+    };
+    for ty in &kinds {
+        for b in position(ty) {
+            out.push(("type-kind", b));
+        }
+    }
+    let n = if thorough { 4000 } else { 1000 };
+    for _ in 0..n {
+        let depth = 1 + rng.below(3);
+        let ty = gen_ty(rng, depth);
+        let positions = position(&ty);
+        let i = rng.below(positions.len());
+        out.push(("type-random", positions[i].clone()));
+    }
+    out
 }
 
 /// Enumerated families. `thorough` adds all operator triples.
@@ -264,12 +411,12 @@ pub fn enumerated(thorough: bool, rng: &mut Rng) -> Vec<(&'static str, Blk)> {
         num(1.0),
         Ex::Str(b"s".to_vec()),
         Ex::Table(vec![]),
-        Ex::Func(Box::new(Func { params: vec![], variadic: false, body: stmts(vec![]) })),
+        Ex::Func(Box::new(Func { params: vec![], variadic: false, body: stmts(vec![]), sig: None })),
         Ex::True,
         Ex::Nil,
         Ex::Varargs,
-        Ex::Cast(bx(a.clone()), "T".into()),
-        bin(CONCAT, a.clone(), Ex::Cast(bx(b.clone()), "T".into())),
+        Ex::Cast(bx(a.clone()), tname("T")),
+        bin(CONCAT, a.clone(), Ex::Cast(bx(b.clone()), tname("T"))),
     ];
     let mut firsts: Vec<St> = Vec::new();
     for v in &value_ends {
@@ -286,8 +433,8 @@ pub fn enumerated(thorough: bool, rng: &mut Rng) -> Vec<(&'static str, Blk)> {
     firsts.push(St::Do(stmts(vec![St::CallSt(call(a.clone(), vec![]))])));
     firsts.push(St::While(a.clone(), stmts(vec![])));
     firsts.push(St::If(vec![(a.clone(), stmts(vec![]))], Some(stmts(vec![]))));
-    firsts.push(St::Function(vec!["f".into()], None, Func { params: vec![], variadic: false, body: stmts(vec![]) }));
-    firsts.push(St::LocalFn("f".into(), Func { params: vec!["p".into()], variadic: true, body: ret(vec![Ex::Varargs]) }));
+    firsts.push(St::Function(vec!["f".into()], None, Func { params: vec![], variadic: false, body: stmts(vec![]), sig: None }));
+    firsts.push(St::LocalFn("f".into(), Func { params: vec!["p".into()], variadic: true, body: ret(vec![Ex::Varargs]), sig: None }));
     firsts.push(St::GFor(vec!["k".into(), "v".into()], vec![call(id("pairs"), vec![a.clone()])], stmts(vec![])));
     firsts.push(St::NFor("i".into(), num(1.0), a.clone(), None, stmts(vec![])));
     for first in &firsts {
@@ -311,7 +458,7 @@ pub fn enumerated(thorough: bool, rng: &mut Rng) -> Vec<(&'static str, Blk)> {
             "semicolon",
             stmts(vec![St::LocalFn(
                 "f".into(),
-                Func { params: vec![], variadic: false, body: stmts(vec![St::CallSt(call(a.clone(), vec![])), second.clone()]) },
+                Func { params: vec![], variadic: false, body: stmts(vec![St::CallSt(call(a.clone(), vec![])), second.clone()]), sig: None },
             )]),
         ));
     }
@@ -319,7 +466,7 @@ pub fn enumerated(thorough: bool, rng: &mut Rng) -> Vec<(&'static str, Blk)> {
     out.push(("statement", stmts(vec![St::While(Ex::True, Blk { stmts: vec![], last: Some(Last::Break) })])));
     out.push(("statement", stmts(vec![St::While(Ex::True, Blk { stmts: vec![St::CallSt(call(a.clone(), vec![]))], last: Some(Last::Continue) })])));
     out.push(("statement", stmts(vec![St::Repeat(Blk { stmts: vec![St::Local(vec!["x".into()], vec![num(1.0)])], last: Some(Last::Break) }, id("x"))])));
-    out.push(("statement", stmts(vec![St::Function(vec!["a".into(), "b".into(), "c".into()], Some("m".into()), Func { params: vec!["p".into(), "q".into()], variadic: true, body: ret(vec![Ex::Varargs, id("p")]) })])));
+    out.push(("statement", stmts(vec![St::Function(vec!["a".into(), "b".into(), "c".into()], Some("m".into()), Func { params: vec!["p".into(), "q".into()], variadic: true, body: ret(vec![Ex::Varargs, id("p")]), sig: None })])));
     out.push(("statement", stmts(vec![St::If(vec![(a.clone(), ret(vec![])), (b.clone(), ret(vec![num(1.0)])), (c.clone(), stmts(vec![]))], None)])));
     out.push(("statement", ret(vec![])));
     out.push(("statement", Blk::default()));
@@ -331,13 +478,13 @@ pub fn enumerated(thorough: bool, rng: &mut Rng) -> Vec<(&'static str, Blk)> {
         k.push(Ex::Str(long_text(64)));
         k.push(Ex::Table(vec![Entry::Val(num(1.0)), Entry::Fld("x".into(), a.clone()), Entry::Idx(b.clone(), c.clone())]));
         k.push(Ex::Table(vec![Entry::Val(Ex::Table(vec![Entry::Val(call(a.clone(), vec![]))])), Entry::Val(Ex::Varargs)]));
-        k.push(Ex::Func(Box::new(Func { params: vec!["p".into()], variadic: true, body: ret(vec![Ex::Varargs]) })));
+        k.push(Ex::Func(Box::new(Func { params: vec!["p".into()], variadic: true, body: ret(vec![Ex::Varargs]), sig: None })));
         k.push(Ex::Call(bx(a.clone()), Some("m".into()), Args::Tuple(vec![num(1.0), Ex::Varargs])));
         k.push(Ex::Call(bx(call(a.clone(), vec![])), None, Args::Table(vec![Entry::Val(num(1.0))])));
         k.push(paren(call(a.clone(), vec![])));
         k.push(paren(Ex::Varargs));
-        k.push(Ex::Cast(bx(bin(8, a.clone(), b.clone())), "T".into()));
-        k.push(Ex::Cast(bx(Ex::Cast(bx(a.clone()), "T".into())), "U".into()));
+        k.push(Ex::Cast(bx(bin(8, a.clone(), b.clone())), tname("T")));
+        k.push(Ex::Cast(bx(Ex::Cast(bx(a.clone()), tname("T"))), tname("U")));
         k.push(Ex::IfExp(bx(a.clone()), bx(Ex::IfExp(bx(b.clone()), bx(num(1.0)), vec![], bx(num(2.0)))), vec![], bx(Ex::IfExp(bx(c.clone()), bx(num(3.0)), vec![], bx(num(4.0))))));
         k
     };
@@ -444,11 +591,29 @@ impl Gen {
     fn func(&mut self, d: usize) -> Func {
         let n = self.rng.below(3);
         let saved = std::mem::replace(&mut self.in_loop, false);
-        let f = Func {
+        let mut f = Func {
             params: (0..n).map(|_| self.name()).collect(),
             variadic: self.rng.chance(1, 3),
             body: self.block(d),
+            sig: None,
         };
+        if self.casts && self.rng.chance(1, 3) {
+            let generics = match self.rng.below(4) {
+                0 => vec![Generic::Var("G".into())],
+                1 => vec![Generic::Var("G".into()), Generic::Pack("P".into())],
+                2 => vec![Generic::Pack("P".into())],
+                _ => vec![],
+            };
+            let sig = Sig {
+                generics,
+                param_types: (0..n).map(|_| if self.rng.chance(2, 3) { Some(gen_ty(&mut self.rng, 2)) } else { None }).collect(),
+                variadic_type: if f.variadic && self.rng.chance(1, 2) { Some(gen_var(&mut self.rng, 1)) } else { None },
+                ret: if self.rng.chance(2, 3) { Some(gen_ret(&mut self.rng, 2)) } else { None },
+            };
+            if !sig.is_empty() {
+                f.sig = Some(Box::new(sig));
+            }
+        }
         self.in_loop = saved;
         f
     }
@@ -490,7 +655,13 @@ impl Gen {
                     if matches!(&inner, Ex::Num(n) if n.is_negative()) {
                         inner = paren(inner);
                     }
-                    Ex::Cast(bx(inner), (*self.rng.pick(&["T", "number", "Foo"])).to_owned())
+                    let ty = if self.rng.chance(1, 2) {
+                        tname(*self.rng.pick(&["T", "number", "Foo"]))
+                    } else {
+                        let depth = self.rng.below(3);
+                        gen_ty(&mut self.rng, depth)
+                    };
+                    Ex::Cast(bx(inner), ty)
                 } else {
                     self.leaf()
                 }
@@ -512,6 +683,23 @@ impl Gen {
         let d1 = d.saturating_sub(1);
         let e = 2.min(d + 1);
         let kinds = if d == 0 { 4 } else { 12 };
+        if self.casts && self.rng.chance(1, 10) {
+            return if self.rng.chance(1, 2) {
+                let n = 1 + self.rng.below(3);
+                let names = (0..n)
+                    .map(|_| (self.name(), if self.rng.chance(2, 3) { Some(gen_ty(&mut self.rng, 2)) } else { None }))
+                    .collect();
+                St::LocalT(names, self.exprs(e, 0, 2))
+            } else {
+                let generics = match self.rng.below(5) {
+                    0 => vec![Generic::Var("A".into())],
+                    1 => vec![Generic::Var("A".into()), Generic::VarDefault("B".into(), gen_ty(&mut self.rng, 1))],
+                    2 => vec![Generic::Var("A".into()), Generic::Pack("P".into())],
+                    _ => vec![],
+                };
+                St::TypeDecl(self.rng.chance(1, 3), (*self.rng.pick(&["T", "Foo", "e1", "_K"])).to_owned(), generics, gen_ty(&mut self.rng, 3))
+            };
+        }
         match self.rng.below(kinds) {
             0 => {
                 let n = 1 + self.rng.below(2);
@@ -571,5 +759,231 @@ impl Gen {
             _ => None,
         };
         Blk { stmts, last }
+    }
+}
+
+// ---------------------------------------------------------------- adjacency family
+
+const KEYWORDS: [&str; 21] = [
+    "and", "break", "do", "else", "elseif", "end", "false", "for", "function", "if", "in", "local", "nil",
+    "not", "or", "repeat", "return", "then", "true", "until", "while",
+];
+
+fn is_word(c: char) -> bool {
+    c.is_ascii_alphanumeric() || c == '_'
+}
+
+/// expressions whose dense text ENDS with `c1` (as the last character of the last push)
+fn enders(c1: char) -> Vec<Ex> {
+    let mut v = Vec::new();
+    if is_word(c1) {
+        v.push(id(&format!("x{}", c1)));
+    }
+    if let Some(d) = c1.to_digit(10) {
+        v.push(num(d as f64));
+        v.push(Ex::Num(Num::Hex(0x10 + d as u64, false)));
+    }
+    if ('a'..='f').contains(&c1) {
+        v.push(Ex::Num(Num::Hex(c1.to_digit(16).unwrap() as u64, false)));
+    }
+    match c1 {
+        'e' => v.push(Ex::True),
+        'l' => v.push(Ex::Nil),
+        'd' => v.push(Ex::Func(Box::new(Func { params: vec![], variadic: false, body: Blk::default(), sig: None }))),
+        '.' => v.push(Ex::Varargs),
+        ']' => v.push(Ex::Index(bx(id("t")), bx(num(1.0)))),
+        _ => {}
+    }
+    v
+}
+
+/// identifier starting with `c2`, if there is one that is not a keyword
+fn starter_name(c2: char) -> Option<String> {
+    if c2.is_ascii_alphabetic() || c2 == '_' {
+        let name = format!("{}x", c2);
+        if KEYWORDS.contains(&name.as_str()) { None } else { Some(name) }
+    } else {
+        None
+    }
+}
+
+/// Blocks in which the dense generator writes a token ending with `c1` directly followed (no
+/// comma, operator symbol or bracket in between) by a token starting with `c2`, through
+/// `push_str` / `push_char`, so that `should_break_with_space(c1, c2)` decides. `variant`
+/// rotates the statement forms so that the whole family stays small; `all_forms` asks for
+/// every form. Empty when the grammar never juxtaposes the two (see `unreachable_reason`).
+pub fn adjacency_witnesses(c1: char, c2: char, variant: usize, all_forms: bool) -> Vec<Blk> {
+    let mut out = Vec::new();
+    let a = id("a");
+    let empty = || Blk::default();
+    let pick = |forms: Vec<Blk>, out: &mut Vec<Blk>| {
+        if forms.is_empty() {
+            return;
+        }
+        if all_forms {
+            out.extend(forms);
+        } else {
+            out.push(forms[variant % forms.len()].clone());
+        }
+    };
+    // (1) statement ending with an expression ending with c1, next statement starting with c2
+    for e in enders(c1) {
+        let ending_statements = |e: &Ex| -> Vec<St> {
+            vec![
+                St::Local(vec!["v".into()], vec![e.clone()]),
+                St::Assign(vec![a.clone()], vec![num(1.5), e.clone()]),
+                St::Compound(0, a.clone(), e.clone()),
+                St::Repeat(empty(), e.clone()),
+            ]
+        };
+        let mut forms: Vec<Blk> = Vec::new();
+        if let Some(name) = starter_name(c2) {
+            let nexts = vec![
+                St::Assign(vec![id(&name)], vec![num(1.0)]),
+                St::CallSt(call(id(&name), vec![])),
+                St::Assign(vec![Ex::Field(bx(id(&name)), "f".into())], vec![num(2.0)]),
+                St::CallSt(Ex::Call(bx(id(&name)), Some("m".into()), Args::Tuple(vec![]))),
+            ];
+            for (i, first) in ending_statements(&e).into_iter().enumerate() {
+                forms.push(stmts(vec![first, nexts[i % nexts.len()].clone()]));
+            }
+            // expression followed by a keyword is (2); identifier after `return`/`not`… is (3)
+        }
+        // keyword-starting statements and clauses after the expression
+        let keyword_followers: Vec<(char, Blk)> = vec![
+            ('d', stmts(vec![St::Local(vec!["v".into()], vec![e.clone()]), St::Do(empty())])),
+            ('l', stmts(vec![St::Local(vec!["v".into()], vec![e.clone()]), St::Local(vec!["w".into()], vec![])])),
+            ('r', Blk { stmts: vec![St::Local(vec!["v".into()], vec![e.clone()])], last: Some(Last::Return(vec![])) }),
+            ('r', stmts(vec![St::Local(vec!["v".into()], vec![e.clone()]), St::Repeat(empty(), a.clone())])),
+            ('i', stmts(vec![St::Local(vec!["v".into()], vec![e.clone()]), St::If(vec![(a.clone(), empty())], None)])),
+            ('w', stmts(vec![St::Local(vec!["v".into()], vec![e.clone()]), St::While(a.clone(), empty())])),
+            ('f', stmts(vec![St::Local(vec!["v".into()], vec![e.clone()]), St::NFor("i".into(), num(1.0), num(2.0), None, empty())])),
+            ('f', stmts(vec![St::Local(vec!["v".into()], vec![e.clone()]), St::Function(vec!["g".into()], None, Func { params: vec![], variadic: false, body: empty(), sig: None })])),
+            ('a', ret(vec![bin(0, e.clone(), a.clone())])),
+            ('o', ret(vec![bin(1, e.clone(), a.clone())])),
+            ('t', stmts(vec![St::If(vec![(e.clone(), empty())], None)])),
+            ('d', stmts(vec![St::While(e.clone(), empty())])),
+            ('d', stmts(vec![St::NFor("i".into(), num(1.0), e.clone(), None, empty())])),
+            ('d', stmts(vec![St::GFor(vec!["k".into()], vec![e.clone()], empty())])),
+            ('e', stmts(vec![St::If(vec![(a.clone(), ret(vec![e.clone()]))], None)])),
+            ('e', stmts(vec![St::If(vec![(a.clone(), ret(vec![e.clone()]))], Some(empty()))])),
+            ('e', stmts(vec![St::If(vec![(a.clone(), ret(vec![e.clone()])), (a.clone(), empty())], None)])),
+            ('e', stmts(vec![St::Do(stmts(vec![St::Local(vec!["v".into()], vec![e.clone()])]))])),
+            ('u', stmts(vec![St::Repeat(stmts(vec![St::Local(vec!["v".into()], vec![e.clone()])]), a.clone())])),
+            ('b', stmts(vec![St::While(a.clone(), Blk { stmts: vec![St::Local(vec!["v".into()], vec![e.clone()])], last: Some(Last::Break) })])),
+            ('c', stmts(vec![St::While(a.clone(), Blk { stmts: vec![St::Local(vec!["v".into()], vec![e.clone()])], last: Some(Last::Continue) })])),
+            ('e', ret(vec![Ex::IfExp(bx(a.clone()), bx(e.clone()), vec![], bx(a.clone()))])),
+            ('t', ret(vec![Ex::IfExp(bx(e.clone()), bx(a.clone()), vec![(e.clone(), a.clone())], bx(a.clone()))])),
+        ];
+        for (first, blk) in keyword_followers {
+            if first == c2 {
+                forms.push(blk);
+            }
+        }
+        pick(forms, &mut out);
+    }
+    // (2) keyword ending with c1 followed by an expression starting with c2
+    let mut starters: Vec<Ex> = Vec::new();
+    if let Some(name) = starter_name(c2) {
+        starters.push(id(&name));
+    }
+    if let Some(d) = c2.to_digit(10) {
+        starters.push(num(d as f64));
+    }
+    match c2 {
+        't' => starters.push(Ex::True),
+        'f' => {
+            starters.push(Ex::False);
+            starters.push(Ex::Func(Box::new(Func { params: vec![], variadic: false, body: Blk::default(), sig: None })));
+        }
+        'n' => {
+            starters.push(Ex::Nil);
+            starters.push(un(2, a.clone()));
+        }
+        'i' => starters.push(Ex::IfExp(bx(a.clone()), bx(a.clone()), vec![], bx(a.clone()))),
+        _ => {}
+    }
+    for s in starters {
+        let forms: Vec<(char, Blk)> = vec![
+            ('n', ret(vec![s.clone()])),
+            ('d', ret(vec![bin(0, a.clone(), s.clone())])),
+            ('r', ret(vec![bin(1, a.clone(), s.clone())])),
+            ('t', ret(vec![un(2, s.clone())])),
+            ('l', stmts(vec![St::Repeat(empty(), s.clone())])),
+            ('n', stmts(vec![St::GFor(vec!["k".into()], vec![s.clone()], empty())])),
+            ('e', stmts(vec![St::While(s.clone(), empty())])),
+            ('f', stmts(vec![St::If(vec![(s.clone(), empty())], None)])),
+            ('f', stmts(vec![St::If(vec![(a.clone(), empty()), (s.clone(), empty())], None)])),
+            ('n', ret(vec![Ex::IfExp(bx(a.clone()), bx(s.clone()), vec![], bx(a.clone()))])),
+            ('e', ret(vec![Ex::IfExp(bx(a.clone()), bx(a.clone()), vec![], bx(s.clone()))])),
+        ];
+        let matching: Vec<Blk> = forms.into_iter().filter(|(last, _)| *last == c1).map(|(_, b)| b).collect();
+        pick(matching, &mut out);
+    }
+    // (2b) keyword ending with c1 followed by a statement / name starting with c2
+    if let Some(name) = starter_name(c2) {
+        let assign = St::Assign(vec![id(&name)], vec![num(1.0)]);
+        let callst = St::CallSt(call(id(&name), vec![]));
+        let forms: Vec<(char, Blk)> = vec![
+            ('o', stmts(vec![St::Do(stmts(vec![assign.clone()]))])),
+            ('o', stmts(vec![St::While(a.clone(), stmts(vec![callst.clone()]))])),
+            ('n', stmts(vec![St::If(vec![(a.clone(), stmts(vec![assign.clone()]))], None)])),
+            ('e', stmts(vec![St::If(vec![(a.clone(), empty())], Some(stmts(vec![callst.clone()])))])),
+            ('t', stmts(vec![St::Repeat(stmts(vec![assign.clone()]), a.clone())])),
+            ('d', stmts(vec![St::Do(empty()), assign.clone()])),
+            ('d', stmts(vec![St::While(a.clone(), empty()), callst.clone()])),
+            ('l', stmts(vec![St::Local(vec![name.clone()], vec![])])),
+            ('r', stmts(vec![St::NFor(name.clone(), num(1.0), num(2.0), None, empty())])),
+            ('r', stmts(vec![St::GFor(vec![name.clone()], vec![a.clone()], empty())])),
+            ('n', stmts(vec![St::Function(vec![name.clone()], None, Func { params: vec![], variadic: false, body: empty(), sig: None })])),
+            ('n', stmts(vec![St::LocalFn(name.clone(), Func { params: vec![], variadic: false, body: empty(), sig: None })])),
+        ];
+        let matching: Vec<Blk> = forms.into_iter().filter(|(last, _)| *last == c1).map(|(_, b)| b).collect();
+        pick(matching, &mut out);
+    }
+    // (3) symbol classes
+    match (c1, c2) {
+        ('-', '-') => {
+            out.push(ret(vec![bin(9, a.clone(), num(-1.0))]));
+            out.push(ret(vec![un(1, num(-2.5))]));
+            out.push(ret(vec![bin(9, num(-1.0), num(-0.0))]));
+        }
+        ('.', d) if d.is_ascii_digit() => {
+            let n = d.to_digit(10).unwrap() as f64;
+            out.push(ret(vec![bin(CONCAT, a.clone(), num(n))]));
+            out.push(ret(vec![bin(CONCAT, Ex::Varargs, num(n))]));
+            out.push(stmts(vec![St::Compound(7, a.clone(), num(n))]));
+        }
+        (d, '.') if d.is_ascii_digit() => {
+            // an identifier ending in a digit followed by `..=` (harmless either way: the
+            // identifier ends at the dot), the only push_str/push_char route to digit·dot
+            out.push(stmts(vec![St::Compound(7, id(&format!("x{}", d)), a.clone())]));
+        }
+        (']', ']') => {
+            out.push(ret(vec![Ex::Index(bx(a.clone()), bx(Ex::Index(bx(id("b")), bx(num(1.0)))))]));
+            out.push(ret(vec![Ex::Table(vec![Entry::Idx(Ex::Index(bx(a.clone()), bx(num(1.0))), num(2.0))])]));
+            out.push(ret(vec![Ex::Index(bx(a.clone()), bx(Ex::Str(long_text(64))))]));
+        }
+        _ => {}
+    }
+    out
+}
+
+/// why no valid program of the core juxtaposes a token ending with `c1` and one starting with `c2`
+pub fn unreachable_reason(c1: char, c2: char) -> &'static str {
+    if c1.is_ascii_digit() && c2.is_ascii_digit() {
+        "digit·digit: a numeral or an identifier ending in a digit is never directly followed by a numeral"
+    } else if is_word(c1) && c2.is_ascii_digit() {
+        "word·digit: only a keyword can be directly followed by a numeral, and no keyword ends with this character"
+    } else if c1.is_ascii_digit() && c2 == '.' {
+        "digit·dot: after a numeral the writers reach `..`/`...` only through break_concat / break_variable_arguments (an identifier ending in a digit before `..=` is the one push_str route)"
+    } else if c1 == '.' && c2 == '.' {
+        "dot·dot: after `..`/`...` only `...` starts with a dot, written through break_variable_arguments"
+    } else if c1 == '[' && c2 == '[' {
+        "[·[: after `[` only a long string starts with `[`, written through break_long_string"
+    } else if c1 == '>' && c2 == '=' {
+        "`>`·`=`: only with generic type parameters (`type T<A> =`), written through break_equal; Luau type syntax"
+    } else {
+        "no form of the core grammar juxtaposes these"
     }
 }
